@@ -33,6 +33,7 @@ def swarm(prop, r, tier):
     cfg["zero_params"] = R.pick([0.0, 0.0, 0.08])
     cfg["sparse"] = R.chance(0.3)
     cfg["deprecated_iq"] = R.chance(0.25)
+    cfg["slot_reuse"] = prop in ("C07", "C16", "C05", "C09", "C01") and R.chance(0.1)
     cfg["mixed_scale"] = prop in ("C01", "C02", "C03", "C07", "C09") and R.chance(0.1)
     if prop in ("C01", "C02", "C07") and R.chance(0.03):
         cfg["names"] = "summary"
@@ -122,6 +123,8 @@ def drive(sess, rnd, cfg, record):
     want_mux = R.chance(cfg["mux"])
     want_multi = R.chance(cfg["multi_source"])
     want_phases = R.chance(cfg["phases"])
+    # in some runs the mux is only built after edits have freed and re-used node slots
+    late_mux = want_mux and R.chance(0.3)
     # ---- growth
     guard = 0
     while len(sess.model.order) < target and guard < 60:
@@ -130,12 +133,55 @@ def drive(sess, rnd, cfg, record):
         nsrc = len(m.sources())
         if want_multi and nsrc < R.pick([2, 2, 3, 4]) and R.chance(0.3):
             op = g.op_add_source(m)
-        elif want_mux and m.mux() is None and len(m.order) >= (4 if R.chance(0.5) else 2) and R.chance(0.35) and "PMux" in cfg["kinds"]:
+        elif want_mux and not late_mux and m.mux() is None and len(m.order) >= (4 if R.chance(0.5) else 2) and R.chance(0.35) and "PMux" in cfg["kinds"]:
             op = g.op_add_mux(m)
         else:
             op = g.op_add_comp(m)
         if emit(op):
             yield op
+    if cfg.get("slot_reuse") and sess.model.mux() is None and "PMux" in cfg["kinds"]:
+        # node-slot re-use below a late source: an early component is deleted, a
+        # source is added last, and a chain built under it (taking over the freed
+        # low slots) ends in the mux
+        m = sess.model
+        victims = [n for n in m.order if m.kind(n) != "Source" and not m.children(n)]
+        seq = []
+        late = g.op_add_source(m)
+        seq.append(late)  # gets a new, high slot
+        if victims:
+            seq.append({"op": "del_comp", "name": victims[0], "del_childs": True})  # frees a low slot
+        for op in seq:
+            if emit(op):
+                yield op
+        m = sess.model
+        lname = late["comp"]["name"]
+        if lname in m.comps:
+            a = g.op_add_comp(m, kinds=[k for k in ("Converter", "LinReg", "RLoss", "PSwitch", "VLoss") if k in cfg["kinds"]] or ["RLoss"], parent=lname)
+            if emit(a):
+                yield a
+            m = sess.model
+            an = a["comp"]["name"]
+            if an in m.comps:
+                b = g.op_add_comp(m, kinds=[k for k in ("LinReg", "RLoss", "PSwitch", "VLoss") if k in cfg["kinds"]] or ["RLoss"], parent=an)
+                if emit(b):
+                    yield b
+                m = sess.model
+                bn = b["comp"]["name"]
+                others = [x for x in m.sources() if x != lname]
+                if bn in m.comps and others:
+                    spec = g.comp("PMux", m, g.vnom(m, bn))
+                    g.mux_rs(spec, 2)
+                    mx = {"op": "add_comp", "parent": [bn, R.pick(others)], "comp": spec, "group": g.group(), "rail": g.rail(m, "PMux")}
+                    if emit(mx):
+                        yield mx
+                    m = sess.model
+                    if spec["name"] in m.comps:
+                        l = g.op_add_comp(m, kinds=["PLoad", "ILoad"], parent=spec["name"])
+                        if emit(l):
+                            yield l
+                        o = make_observe(g, sess.model, cfg)
+                        if emit(o):
+                            yield o
     if want_phases:
         first = []
         if R.chance(0.3):
@@ -165,7 +211,7 @@ def drive(sess, rnd, cfg, record):
         if grp == "grow":
             if len(m.order) >= cfg["max_comps"]:
                 ops = [g.op_del(m)]
-            elif want_mux and m.mux() is None and R.chance(0.2) and "PMux" in cfg["kinds"]:
+            elif want_mux and m.mux() is None and R.chance(0.5 if (late_mux and i >= cfg["n_ops"] // 3) else (0.0 if late_mux else 0.2)) and "PMux" in cfg["kinds"]:
                 ops = [g.op_add_mux(m)]
             elif want_multi and R.chance(0.1) and len(m.sources()) < 4:
                 ops = [g.op_add_source(m)]
